@@ -132,8 +132,43 @@ def gen_srr(rng, max_vox=24000, force_valid=True):
 
 
 def srr_cfg_json(case):
+    """the INPUTS of an SRRConfig: the constructor arguments (exact values of the floats) and, under "ops", the changes made
+    to that object afterwards (see `cfg_op`); Lean's `SrrConfig.make` / setters compute the state from them"""
     return {"spotsize": rat(case["spotsize"]), "speed": rat(case["speed"]), "scantime": rat(case["scantime"]),
-            "warmup": rat(case["warmup"]), "pairs": case["pairs"]}
+            "warmup": rat(case["warmup"]), "pairs": case["pairs"], "ops": list(case.get("ops", []))}
+
+
+def cfg_op(op, **kw):
+    """one change of an SRRConfig object for the driver: warmup(seconds) | offsets(pairs) | equal(width) |
+    params(spotsize, speed, scantime) | new(spotsize, speed, scantime, warmup, pairs)"""
+    out = {"op": op}
+    for k, v in kw.items():
+        out[k] = rat(v) if isinstance(v, float) else v
+    return out
+
+
+def enc_rec(arr):
+    """a structured NumPy array as the driver's `RecArr`: dtype names in order, dim (None = 0-d, n = shape (n,)), one record
+    per element; a field is a float64 scalar ({"num": exact value}) or a (k, 2) integer sub-array ({"table": rows}).
+    None when the array is something else (2-d, other field types)."""
+    arr = np.asarray(arr)
+    if arr.dtype.names is None or arr.ndim > 1:
+        return None
+    names = [str(n) for n in arr.dtype.names]
+    elems = [arr[()]] if arr.ndim == 0 else [arr[i] for i in range(arr.shape[0])]
+    recs = []
+    for el in elems:
+        rec = []
+        for n in names:
+            v = np.asarray(el[n])
+            if v.ndim == 0 and v.dtype.kind == "f" and np.isfinite(v):
+                rec.append({"num": rat(float(v))})
+            elif v.ndim == 2 and v.shape[1] == 2 and v.dtype.kind in "iu":
+                rec.append({"table": [[int(a), int(b)] for a, b in v]})
+            else:
+                return None
+        recs.append(rec)
+    return {"names": names, "dim": None if arr.ndim == 0 else int(arr.shape[0]), "recs": recs}
 
 
 def float_mag(case):
